@@ -626,6 +626,10 @@ def process_fn(unit, lines, i, arg, rel_tpl):
         prefix += ' let mut %s = %s;' % (mm.group(2), mm.group(2))
         st['R2_mut_param'] = st.get('R2_mut_param', 0) + 1
     sig = re.sub(r'([(,]\s*)mut\s+(?!self\b)(\w+)\s*:', r'\1\2:', sig)
+    # R14: anonymous `_: T` parameters get a name (the verus! macro wants an identifier; the value is unused either way)
+    sig, n_anon = re.subn(r'([(,]\s*)_\s*:', r'\1_anon:', sig)
+    if n_anon:
+        st['R14_anon_param'] = st.get('R14_anon_param', 0) + n_anon
     if newname:
         sig = re.sub(r'\bfn\s+' + name + r'\b', 'fn ' + newname, sig, count=1)
     sig = re.sub(r'^(\s*)pub\(crate\)\s+', r'\1pub ', sig)
